@@ -479,6 +479,16 @@ func main() {
 				if body == nil {
 					body = tok.Build(kind, cmd.String(), "")
 				}
+				// some calls go through a transfer-filter pipe (the reply inherits it)
+				if t.p.Pipe && mode != "closed" && r.Intn(3) == 0 {
+					pipes := []string{"z", "m", "mz"}
+					if t.p.HTTP {
+						pipes = []string{"z", "g"}
+					}
+					pp := pipes[r.Intn(len(pipes))]
+					settings = append(settings, erpc.WithXferPipe([]byte(pp)...))
+					class += "|pipe=" + pp
+				}
 				if mode == "reply-bytes" {
 					settings = append(settings, erpc.WithBodyCodec(codec.ID_PLAIN))
 				} else {
@@ -498,9 +508,17 @@ func main() {
 				core.Begin(id, desc)
 				c := sess.AsyncCall(route, body, result, make(chan erpc.CallCmd, 1), settings...)
 				if !waitDone(c) {
-					// a call that never completes is C02's business; here the case simply cannot be judged
 					core.Add("calls_stuck", 1)
-					core.Result(core.R{ID: id, Verdict: core.Inconclusive, What: "call incomplete at quiescence", Desc: desc})
+					oo := getObs(id)
+					if link.A.Health() && link.B.Health() && (atomic.LoadInt32(&oo.completed) > 0 || mode != "ok" && mode != "status" && mode != "mismatch" && mode != "reply-bytes") {
+						// the request was dealt with, both ends are healthy, nothing runs any more - and the caller never
+						// observes any status: neither OK nor the status that applies
+						core.Result(core.R{ID: id, Verdict: core.Violated, FP: fmt.Sprintf("C04/%s/%s/%s/caller-never-sees-a-status", t.name, mode, kind),
+							What: t.name + " " + mode + " " + kind + " (" + class + "): the call is incomplete at quiescence although the connection is healthy on both sides", Desc: desc})
+					} else {
+						// a call cut off by a dead connection is C02's business; here the case cannot be judged
+						core.Result(core.R{ID: id, Verdict: core.Inconclusive, What: "call incomplete at quiescence", Desc: desc})
+					}
 					link.CA.Sever(false)
 					bed.WaitUntil(5*time.Second, func() bool { return !link.A.Health() })
 					link.A.Close()
